@@ -76,8 +76,16 @@ class C07(E1Check):
                                         continue
                                     progs.append({"kind": "fault", "shape": shape, "absent": absent, "timeout": timeout,
                                                   "fault": {"path": p, "phase": phase, "pos": pos, "cls": cls.split("+")[0], "handshake": cls.endswith("+hs")}})
+                                    if cls == "E" and not absent and timeout == 5 and pos == "before":
+                                        # the same with start_component() called in a context nested in two others
+                                        progs.append({"kind": "fault", "shape": shape, "absent": absent, "timeout": timeout, "nested": True,
+                                                      "fault": {"path": p, "phase": phase, "pos": pos, "cls": "E", "handshake": False}})
             for absent in ("", "noprep"):
                 progs.append({"kind": "timeout", "shape": shape, "absent": absent, "timeout": 5})
+            if len(paths(SHAPES[shape])) >= 3:
+                # one component fails inside a lookup (the shared async factory raises) while siblings wait for the same resource
+                for timeout in (5, None):
+                    progs.append({"kind": "flaky-shared", "shape": shape, "absent": "", "timeout": timeout})
             progs.append({"kind": "timeout", "shape": shape, "absent": "", "timeout": 0})
             progs.append({"kind": "timeout", "shape": shape, "absent": "", "timeout": None})
         return progs
@@ -97,6 +105,12 @@ class C07(E1Check):
         from asphalt.core import ComponentStartError, Context, start_component
 
         spec = build(program["shape"], program.get("fault"), program["absent"])
+        if program["kind"] == "flaky-shared":
+            ps = paths(spec)
+            ps[0][1]["prepare"].insert(1, ("addf", "RA", "shared", "shared", "aflaky"))
+            for p, nd in ps[1:]:
+                if not nd.get("children"):
+                    nd["start"].insert(1, ("get", "RA", "shared", "shortcut", False, f"{p}:start"))
         tree = Tree(env, spec)
         env.data["tree"] = tree
         env.data["spec"] = spec
@@ -104,9 +118,26 @@ class C07(E1Check):
         # one fault per execution: in component-failure programs the watchdog's timer is never offered
         env.offer_timers = program["kind"] == "timeout"
         env.inject_filter = (lambda o: o[0] == "timer") if program["kind"] == "timeout" else None
+        outer_marks: list = []
         qpoints = env.data["qpoints"] = []
         env.quiescent_hooks.append(lambda: qpoints.append(len(env.trace)))
-        async with Context() as ctx:
+        from contextlib import AsyncExitStack
+
+        async with AsyncExitStack() as stack:
+            if program.get("nested"):
+                # two enclosing contexts: what the tree registers belongs to the innermost (surrounding) one only
+                o1 = await stack.enter_async_context(Context())
+                o1.add_teardown_callback(lambda: env.log("outer-td", 1))
+                o2 = await stack.enter_async_context(Context())
+                o2.add_teardown_callback(lambda: env.log("outer-td", 2))
+            ctx = Context()
+            await self._body(env, program, tree, st, ctx)
+        env.log("all-left")
+
+    async def _body(self, env: Any, program: dict, tree: Any, st: dict, ctx0: Any) -> None:
+        from asphalt.core import start_component
+
+        async with ctx0 as ctx:
             try:
                 inst = await start_component(tree.root_class, {}, timeout=program["timeout"])
                 st["returned"] = inst
@@ -138,6 +169,13 @@ class C07(E1Check):
         late = [ev for ev in tr[end_idx + 1:] if ev[0] in comp_events]
         if late:
             fail("still-running", f"component events after start_component had {tr[end_idx][0]}: {late[:4]}")
+        if program["kind"] == "flaky-shared":
+            exc = st.get("exc")
+            failed = [ev[1] for ev in tr if ev[0] == "get!" and ev[2] == "FlakyError"]
+            if not isinstance(exc, ComponentStartError):
+                fail("wrong-error", f"one component failed in its lookup (the shared factory raised) but start_component raised {exc!r}")
+            elif len(failed) != 1 or exc.path != failed[0].split(":")[0] or exc.phase != "starting" or type(exc.__cause__).__name__ != "FlakyError":
+                fail("wrong-error", f"components that saw the factory's failure: {failed}; ComponentStartError names {exc.phase!r} {exc.path!r} with cause {exc.__cause__!r}")
         if program["kind"] == "fault":
             f = program["fault"]
             exc = st.get("exc")
@@ -179,7 +217,7 @@ class C07(E1Check):
                     open_ph.discard((ev[1], ev[2]))
             if open_ph:
                 fail("still-running", f"phases {sorted(open_ph)} were neither finished nor stopped when start_component raised")
-        else:
+        elif program["kind"] == "timeout":
             timer_idx = next((i for i, ev in enumerate(tr) if ev[:2] == ("env", "timer")), None)
             n_gates = sum(1 for p, nd in paths(spec) for ph in ("prepare", "start") if nd.get(ph) is not None)
             exc = st.get("exc")
@@ -210,6 +248,13 @@ class C07(E1Check):
                         open_ph.discard((ev[1], ev[2]))
                 if open_ph:
                     fail("still-running", f"phases {sorted(open_ph)} were neither finished nor stopped when TimeoutError was raised")
+        if program.get("nested") and ("ctx-left",) in tr:
+            ci = tr.index(("ctx-left",))
+            late_td = [ev for ev in tr[ci + 1:] if ev[0] == "td"]
+            if late_td:
+                fail("ownership", f"teardown callbacks of the component tree ran only after an enclosing context was left: {late_td[:3]}")
+            if any(ev[0] == "outer-td" for ev in tr[:ci]):
+                fail("ownership", "an enclosing context was torn down before the surrounding one")
         # ownership: what was registered before the failure is torn down in reverse order at context exit
         if ("leaving",) in tr:
             li = tr.index(("leaving",))
